@@ -17,6 +17,7 @@ import (
 	"os"
 	"path/filepath"
 	"strings"
+	"syscall"
 	"time"
 
 	"github.com/attestantio/dirk/testing/daemon"
@@ -85,6 +86,22 @@ func mintCA(cn string) (*x509.Certificate, *rsa.PrivateKey, error) {
 	tmpl := &x509.Certificate{SerialNumber: big.NewInt(7), Subject: pkix.Name{CommonName: cn}, NotBefore: time.Now().Add(-time.Hour), NotAfter: time.Now().Add(24 * time.Hour),
 		IsCA: true, KeyUsage: x509.KeyUsageCertSign | x509.KeyUsageDigitalSignature, BasicConstraintsValid: true}
 	der, err := x509.CreateCertificate(rand.Reader, tmpl, tmpl, &key.PublicKey, key)
+	if err != nil {
+		return nil, nil, err
+	}
+	c, err := x509.ParseCertificate(der)
+	return c, key, err
+}
+
+// mintIntermediate: an authority certificate issued by another authority.
+func mintIntermediate(cn string, parent *x509.Certificate, parentKey *rsa.PrivateKey) (*x509.Certificate, *rsa.PrivateKey, error) {
+	key, err := rsa.GenerateKey(rand.Reader, 2048)
+	if err != nil {
+		return nil, nil, err
+	}
+	tmpl := &x509.Certificate{SerialNumber: big.NewInt(time.Now().UnixNano()), Subject: pkix.Name{CommonName: cn}, NotBefore: time.Now().Add(-time.Hour), NotAfter: time.Now().Add(24 * time.Hour),
+		IsCA: true, KeyUsage: x509.KeyUsageCertSign | x509.KeyUsageDigitalSignature, BasicConstraintsValid: true}
+	der, err := x509.CreateCertificate(rand.Reader, tmpl, parent, &key.PublicKey, parentKey)
 	if err != nil {
 		return nil, nil, err
 	}
@@ -515,6 +532,56 @@ func cmdTLS(args []string) int {
 		conn.Close()
 	}
 
+	// ---- a caller's identity belongs to its connection, not to the address it comes from: a peer connects from an
+	// address and port and leaves; a client that is no peer then connects from the very same address and port ----
+	{
+		reusePort := int(freePort())
+		dialFrom := func(cert *tls.Certificate) (*grpc.ClientConn, error) {
+			d := &net.Dialer{LocalAddr: &net.TCPAddr{IP: net.ParseIP("127.0.0.1"), Port: reusePort}, Timeout: 5 * time.Second,
+				Control: func(_, _ string, c syscall.RawConn) error {
+					return c.Control(func(fd uintptr) {
+						_ = syscall.SetsockoptInt(int(fd), syscall.SOL_SOCKET, syscall.SO_REUSEADDR, 1)
+						_ = syscall.SetsockoptLinger(int(fd), syscall.SOL_SOCKET, syscall.SO_LINGER, &syscall.Linger{Onoff: 1, Linger: 0})
+					})
+				}}
+			cfg := &tls.Config{RootCAs: serverPool, ServerName: "signer-test01", MinVersion: tls.VersionTLS13, Certificates: []tls.Certificate{*cert}}
+			return grpc.NewClient(addr, grpc.WithTransportCredentials(credentials.NewTLS(cfg)),
+				grpc.WithContextDialer(func(c context.Context, a string) (net.Conn, error) { return d.DialContext(c, "tcp", a) }))
+		}
+		abortAs := func(cert *tls.Certificate) (error, bool) {
+			conn, err := dialFrom(cert)
+			if err != nil {
+				return err, false
+			}
+			defer conn.Close()
+			cctx, ccancel := context.WithTimeout(ctx, 10*time.Second)
+			defer ccancel()
+			_, aerr := pb.NewDKGClient(conn).Abort(cctx, &pb.AbortRequest{Account: "Wallet 3/no such generation"})
+			return aerr, status.Code(aerr) != codes.Unavailable
+		}
+		for round := 0; round < 3; round++ {
+			perr, reached := abortAs(fromPEM(resources.SignerTest02Crt, resources.SignerTest02Key))
+			if !reached {
+				stats["address-reuse.unreachable"]++
+				break
+			}
+			time.Sleep(50 * time.Millisecond)
+			cerr, reached2 := abortAs(fromPEM(resources.ClientTest01Crt, resources.ClientTest01Key))
+			if !reached2 {
+				stats["address-reuse.unreachable"]++
+				break
+			}
+			stats["address-reuse.rounds"]++
+			if perr != nil && strings.Contains(perr.Error(), "unknown sender") {
+				monFail = append(monFail, fmt.Sprintf("the peer signer-test02 connecting from 127.0.0.1:%d was refused as unknown sender: %v", reusePort, perr))
+			}
+			if cerr == nil || !strings.Contains(cerr.Error(), "unknown sender") {
+				monFail = append(monFail, fmt.Sprintf("client-test01 (no peer) connecting from 127.0.0.1:%d, the address and port the peer signer-test02 had used just before, was not refused as unknown sender by the key-generation service: %v", reusePort, cerr))
+			}
+			time.Sleep(50 * time.Millisecond)
+		}
+	}
+
 	// ---- nothing changed on behalf of refused callers: no account was created, no session opened ----
 	{
 		opt, _ := kinds[7].Creds() // client-test03 sees Wallet 1 and Wallet 2
@@ -584,6 +651,92 @@ func cmdTLS(args []string) int {
 				monFail = append(monFail, fmt.Sprintf("a server with no certificate authority configured served Lister.ListAccounts to a caller with [%s] (%d accounts)", k.Name, len(r.GetAccounts())))
 			}
 			conn.Close()
+		}
+	}
+
+	// ---- a server whose own certificate file is a chain (leaf + issuing intermediate) of ANOTHER authority: that
+	// intermediate is no authority for client certificates; and a peer that the peer table names by address is not
+	// impersonated by a nameless certificate coming from that address ----
+	if realCAKey != nil {
+		rootC, rootK, err1 := mintCA("Another root authority")
+		interC, interK, err2 := mintIntermediate("Another issuing authority", rootC, rootK)
+		if err1 == nil && err2 == nil {
+			srvLeaf, err3 := mintSAN("signer-test01", []string{"signer-test01"}, interC, interK, false, []x509.ExtKeyUsage{x509.ExtKeyUsageServerAuth})
+			foreignClient, err4 := mint("client-test01", interC, interK, false, clientUsage)
+			nameless, err5 := mintSAN("", nil, realCA, realCAKey, false, clientUsage)
+			if err3 == nil && err4 == nil && err5 == nil {
+				port4 := freePort()
+				nperms := map[string][]*checker.Permissions{"client-test01": {{Path: "Wallet 1", Operations: []string{"All"}}}}
+				n4, err := NewNode(ctx, NodeOpts{ID: 1, NDWallets: []string{"Wallet 1"}, Perms: nperms,
+					PeersMap: map[uint64]string{1: fmt.Sprintf("signer-test01:%d", port4), 2: "127.0.0.2:8882"}})
+				if err != nil {
+					return 2
+				}
+				chainPEM := append(append([]byte{}, pemCert(srvLeaf.Certificate[0])...), pemCert(interC.Raw)...)
+				keyPEM := pemKey(srvLeaf.PrivateKey.(*rsa.PrivateKey))
+				if _, err := grpcapi.New(ctx, grpcapi.WithSigner(n4.Signer), grpcapi.WithLister(n4.Lister), grpcapi.WithProcess(n4.Process),
+					grpcapi.WithAccountManager(n4.AcctMgr), grpcapi.WithWalletManager(n4.WalMgr), grpcapi.WithPeers(n4.Peers),
+					grpcapi.WithName("signer-test01"), grpcapi.WithID(1), grpcapi.WithServerCert(chainPEM), grpcapi.WithServerKey(keyPEM),
+					grpcapi.WithCACert(resources.CACrt), grpcapi.WithListenAddress(fmt.Sprintf("127.0.0.1:%d", port4))); err != nil {
+					fmt.Fprintln(os.Stderr, "api with a chained server certificate:", err)
+					return 2
+				}
+				addr4 := fmt.Sprintf("127.0.0.1:%d", port4)
+				for i := 0; i < 100; i++ {
+					if c, err := net.DialTimeout("tcp", addr4, 200*time.Millisecond); err == nil {
+						c.Close()
+						break
+					}
+					time.Sleep(50 * time.Millisecond)
+				}
+				rootPool := x509.NewCertPool()
+				rootPool.AddCert(rootC)
+				dial := func(cert *tls.Certificate, from string) (*grpc.ClientConn, error) {
+					cfg := &tls.Config{RootCAs: rootPool, ServerName: "signer-test01", MinVersion: tls.VersionTLS13, Certificates: []tls.Certificate{*cert}}
+					d := &net.Dialer{LocalAddr: &net.TCPAddr{IP: net.ParseIP(from)}, Timeout: 5 * time.Second}
+					return grpc.NewClient(addr4, grpc.WithTransportCredentials(credentials.NewTLS(cfg)),
+						grpc.WithContextDialer(func(c context.Context, a string) (net.Conn, error) { return d.DialContext(c, "tcp", a) }))
+				}
+				genuine := fromPEM(resources.ClientTest01Crt, resources.ClientTest01Key)
+				for _, tc := range []struct {
+					name   string
+					cert   *tls.Certificate
+					served bool
+				}{
+					{"certificate named client-test01 issued by the intermediate of the server's own chain (another authority)", &foreignClient, false},
+					{"valid certificate client-test01", genuine, true},
+				} {
+					conn, err := dial(tc.cert, "127.0.0.1")
+					if err != nil {
+						continue
+					}
+					cctx, ccancel := context.WithTimeout(ctx, 10*time.Second)
+					noteRequest("Lister.ListAccounts at a server with a chained certificate by a caller with [%s]", tc.name)
+					_, lerr := pb.NewListerClient(conn).ListAccounts(cctx, &pb.ListAccountsRequest{Paths: []string{"Wallet 1"}})
+					requestDone()
+					ccancel()
+					served := lerr == nil || status.Code(lerr) != codes.Unavailable
+					stats[fmt.Sprintf("chained-server.served=%v", served)]++
+					if served != tc.served {
+						monFail = append(monFail, fmt.Sprintf("server whose certificate file is a chain of another authority, client authority = the configured one: caller with [%s]: served=%v (%v)", tc.name, served, lerr))
+					}
+					conn.Close()
+				}
+				// the nameless certificate from the address the peer table names
+				if conn, err := dial(&nameless, "127.0.0.2"); err == nil {
+					cctx, ccancel := context.WithTimeout(ctx, 10*time.Second)
+					noteRequest("DKG.Abort from 127.0.0.2 with a certificate without names, peer 2 of the server being named 127.0.0.2")
+					_, aerr := pb.NewDKGClient(conn).Abort(cctx, &pb.AbortRequest{Account: "Wallet 3/none"})
+					requestDone()
+					ccancel()
+					stats["peer-by-address.probes"]++
+					if aerr == nil || (status.Code(aerr) != codes.Unavailable && !strings.Contains(aerr.Error(), "unknown sender")) {
+						monFail = append(monFail, fmt.Sprintf("a caller whose certificate bears no name, connecting from 127.0.0.2 to a server whose peer 2 is named \"127.0.0.2\", was not refused as unknown sender by the key-generation service: %v", aerr))
+					}
+					conn.Close()
+				}
+				n4.Close(ctx)
+			}
 		}
 	}
 
